@@ -9,7 +9,7 @@
    it is notified of its cancellation) and every script (registrations, cancellations, clock advances,
    NOHANG and sleeping iterations). *)
 From Coq Require Import ZArith List.
-From Tickit Require Import LoopDefs LoopSpec LoopAsIs LoopProofs LoopRefine LoopOrder LoopSpecEq LoopHeap LoopHeapProofs LoopChain LoopChainProofs LoopIo LoopIoProofs.
+From Tickit Require Import LoopDefs LoopSpec LoopAsIs LoopProofs LoopRefine LoopOrder LoopSpecEq LoopHeap LoopHeapProofs LoopChain LoopChainProofs LoopIo LoopIoProofs LoopNest.
 Import ListNotations.
 Local Open Scope Z_scope.
 
@@ -175,6 +175,34 @@ Print Assumptions C17_built_alone.
 Theorem C17_io_witness : j_run iw_env iw_ops = iw_log /\ hi_run iw_env iw_ops = Some (iw_log, true).
 Proof. exact io_witness. Qed.
 Print Assumptions C17_io_witness.
+
+(* ---- nested iterations (a callback that calls tickit_tick) and DESTROY handlers that register /
+   cancel watches of kinds destroyed later: an executable model of their own (LoopNest.v), tied to
+   the C by the correspondence check; here its behaviour on the witness scripts, the two seeded
+   variants (due prefix assigned instead of appended; lists detached before destruction)
+   refuted, and agreement with the main model on a script without either *)
+Theorem C17_nested_iteration_witness :
+  n_run false false nw_env (fun _ => []) 100 nw_ops =
+    Some ([OPoll 0; E 0 KTimer 3 1 0 0; OPoll 0; E 1 KTimer 3 2 0 0; OPoll 0; E 2 KTimer 3 3 10000 5000], true) /\
+  n_run true false nw_env (fun _ => []) 100 nw_ops =
+    Some ([OPoll 0; E 0 KTimer 3 1 0 0; OPoll 0; OPoll 0; E 2 KTimer 3 3 10000 5000], true).
+Proof. exact nest_witness. Qed.
+Print Assumptions C17_nested_iteration_witness.
+
+Theorem C17_destroy_handler_witness :
+  n_run false false (fun _ => []) nd_denv 100 nd_ops =
+    Some ([E 0 KIo 6 (-1) 0 0; E 1 KTimer 2 (-1) 0 5000; E 2 KLater 6 (-1) 0 0], true) /\
+  n_run false true (fun _ => []) nd_denv 100 nd_ops =
+    Some ([E 0 KIo 6 (-1) 0 0; E 1 KTimer 6 (-1) 0 5000], false).
+Proof. exact destroy_handler_witness. Qed.
+Print Assumptions C17_destroy_handler_witness.
+
+Theorem C17_nested_model_agrees_on_witness :
+  n_run false false (fun cb => map NA (na_env cb)) (fun _ => []) 200
+        (map (fun o => match o with OAct a => NAct (NA a) | ORun dt => NRun dt | OOnce => NRun 0 end) na_ops) =
+    Some (run false na_env nuenv na_ops, true).
+Proof. exact nest_agrees_on_witness. Qed.
+Print Assumptions C17_nested_model_agrees_on_witness.
 
 (* ---- the pinned code *)
 Theorem C17_refuted_use_after_free : a_run true w22a_env 100 w22a_ops = None.
